@@ -3,6 +3,7 @@
 mod api;
 mod calloc;
 mod checkers;
+mod churn;
 mod conc;
 mod futx;
 mod hist;
@@ -189,6 +190,27 @@ fn main() {
             };
             shard.rule = "run = one concurrent scenario (seeded configuration, scripts and stall plan) followed by the quiescent probe, a seeded teardown and the offline checkers; distinct = hash(configuration shape, per-event thread/op/result and number of overlapping operations of other threads); non-trivial = family rule (steady/view: ring wrapped and a send overlapped a receive; wrap-slow-clone: wrapped and another operation completed while a clone/closure was in progress; last-sender: the end was reported and sends overlapped receives; add-stream: the call overlapped a send (shared: and a sibling receive); remove-stream: a send was refused before the removal; handle-churn: a clone/drop overlapped traffic of another thread; quiesce: send/receive overlap; teardown: ring wrapped)".to_string();
             conc::run_many(&p, &mut shard);
+            write_out(&args, &shard);
+        }
+        "churn" => {
+            let mut shard = report::Shard::new("mq-churn");
+            let seed = args.u64("seed", 1);
+            let runs = args.u64("runs", 100);
+            let budget = args.u64("budget-ms", 0);
+            match args.str("mode", "teardown").as_str() {
+                "teardown" => {
+                    shard.rule = "run = one scripted queue life (random API calls over all handle families) ending in a seeded teardown order, executed once as warm-up and once measured with the counting allocator; distinct = hash(configuration, commands, results, teardown order); non-trivial = more than 20 calls and at least two handles alive at teardown".to_string();
+                    churn::run_teardown(seed, runs, budget, &mut shard);
+                }
+                "growth" => {
+                    shard.rule = "run = a fixed pair of operating handles plus N add_stream/clone/drop/into_single cycles (N in 10^2..10^5), live bytes sampled every 64 cycles after a 64-cycle warm-up; distinct = (flavour, futures?, capacity, with/without non-last handle drops, N); every run is non-trivial".to_string();
+                    churn::run_growth(seed, runs, budget, args.u64("max-cycles", 100_000), &mut shard);
+                }
+                _ => {
+                    shard.rule = "run = writers, readers and churners (add_stream/clone/drop cycles on their own parent stream) running concurrently with stalls inside the writer's stream-list scan and inside the reclamation code; distinct = hash(configuration, deferred frees executed / 16); non-trivial = at least 100 deferred frees (20 under Miri) were executed while writers were scanning, or - for runs with idle handles that never operate - every churn cycle completed".to_string();
+                    churn::run_stress_many(seed, runs, budget, args.flag("small"), args.flag("measure-growth"), &mut shard);
+                }
+            }
             write_out(&args, &shard);
         }
         "fut" => {
